@@ -6,8 +6,15 @@
 //!   `ui` / `uI` / `uJ`   session.use_keyspace(<invalid name>, cs): "bad name" / "k;DROP" / 49 characters
 //!   `da<k>` / `db<k>` / `dA<k>`  TWO use_keyspace calls for the same name concurrently; as soon as the first returns Ok,
 //!                 k requests are submitted (while the other call may still be running)
-//!   `ya` / `yb`   the USER sends the statement `USE ka` / `USE kb` through session.query_unpaged: one connection switches,
-//!                 then the session itself calls use_keyspace(<name the server returned>, true) before the query returns
+//!   `<m><n>[q]`   the USER sends a `USE` statement through the api `m` (`y` query_unpaged, `z` query_single_page,
+//!                 `i` query_iter - the pager, `p` execute_unpaged and `j` execute_iter of the PREPARED statement) for the name
+//!                 `n` (`a` ka, `b` kb, `A` Ka), quoted with `q` (`iAq` = query_iter("USE \"Ka\"")): one connection switches,
+//!                 then the session itself calls use_keyspace(<name the server returned>, true) before the call returns.
+//!                 Afterwards every request must run in EXACTLY the keyspace the server resolved the statement to.
+//! `init=<n><0|1>`: the session is BUILT with SessionBuilder::use_keyspace(name, flag) (`x` = a keyspace that does not
+//!                 exist: the build must fail).
+//! The nodes resolve `USE` as a server does: a quoted name exactly, an unquoted one folded to lower case; the answer
+//! carries the resolved name; Invalid if no such keyspace exists (existing: ka, kb and the case twin Ka).
 //!   `f1` / `f0`   from now on the nodes answer `USE` with an Invalid error / normally again
 //!   `h<i>`        from now on node i alone does not answer `USE` (its pool's USE times out after `ct` ms while the other
 //!                 nodes acknowledge; its connections stay published); `t0` ends it
@@ -37,7 +44,7 @@ use std::time::Duration;
 /// Histories that REPEAT a name: after a failed / timed-out call, concurrently, an invalid name several times, the
 /// same name with the other case_sensitive flag.
 fn generate_repeats(rng: &mut Rng, tier: Tier, emit: &mut dyn FnMut(String)) {
-    let n_cases = if tier == Tier::Quick { 48 } else { 480 };
+    let n_cases = if tier == Tier::Quick { 60 } else { 600 };
     for c in 0..n_cases {
         let n = 1 + rng.below(3);
         let name = *rng.pick(&["a", "b", "A"]);
@@ -50,7 +57,33 @@ fn generate_repeats(rng: &mut Rng, tier: Tier, emit: &mut dyn FnMut(String)) {
             ops.push(format!("u{}", other));
             ops.push(rq(rng));
         }
-        match c % 8 {
+        let mut init = String::new();
+        match c % 10 {
+            // every entry point for a user-issued USE statement, on the case twins ka / Ka: the session's follow-up must
+            // name EXACTLY the keyspace the server resolved
+            8 => {
+                for _ in 0..2 + rng.below(2) {
+                    let m = *rng.pick(&["y", "z", "i", "p", "j"]);
+                    let nm = *rng.pick(&["A", "A", "a", "b"]);
+                    let q = if rng.chance(2, 3) { "q" } else { "" };
+                    ops.push(format!("{}{}{}", m, nm, q));
+                    ops.push(rq(rng));
+                }
+                ops.push(if rng.bool() { "K".to_owned() } else { format!("k{}", rng.below(n)) });
+                ops.push(rq(rng));
+            }
+            // the session is built with a keyspace
+            9 => {
+                init = format!(" init={}{}", rng.pick(&["a", "b", "A", "A", "x"]), rng.below(2));
+                ops.clear();
+                ops.push(rq(rng));
+                ops.push(if rng.bool() { "K".to_owned() } else { format!("k{}", rng.below(n)) });
+                ops.push(rq(rng));
+                if rng.bool() {
+                    ops.push("add".into());
+                    ops.push(rq(rng));
+                }
+            }
             // ONE node does not answer the USE (its pool times out, stays published), the others acknowledge
             7 => {
                 ct = 300;
@@ -141,12 +174,13 @@ fn generate_repeats(rng: &mut Rng, tier: Tier, emit: &mut dyn FnMut(String)) {
         ops.push("w".into());
         ops.push("c6".into());
         emit(format!(
-            "e2e keyspace n={} sh={} cs={} udelay={} ct={} seed={} ops={}",
+            "e2e keyspace n={} sh={} cs={} udelay={} ct={}{} seed={} ops={}",
             n,
             *rng.pick(&[0u64, 0, 2]),
             rng.below(2),
             udelay,
             ct,
+            init,
             rng.below(1 << 32),
             ops.join(".")
         ));
@@ -177,7 +211,7 @@ pub fn generate(rng: &mut Rng, tier: Tier, emit: &mut dyn FnMut(String)) {
                 }
                 8 => "w".to_owned(),
                 9 => format!("s{}", 1 + rng.below(30)),
-                10 => (*rng.pick(&["ua", "ub", "ya", "yb"])).to_owned(),
+                10 => (*rng.pick(&["ua", "ub", "uA", "vA", "ya", "yb", "zAq", "iAq", "iA", "ibq", "pAq", "jAq", "ja"])).to_owned(),
                 _ => format!("x{}{}", rng.pick(&["a", "b"]), 2 + rng.below(4)),
             };
             let is_fault = op.starts_with('k') || op == "K" || op == "add";
@@ -253,6 +287,21 @@ pub fn run(words: &[&str], ctx: &mut Ctx) -> String {
     if ct > 5000 {
         return "bad-case".into();
     }
+    // keyspace given at build time
+    let init: Option<(&'static str, bool)> = match p.str("init") {
+        None => None,
+        Some(v) if v.len() == 2 => {
+            let name = match &v[..1] {
+                "a" => "ka",
+                "b" => "kb",
+                "A" => "Ka",
+                "x" => "kx",
+                _ => return "bad-case".into(),
+            };
+            Some((name, &v[1..] == "1"))
+        }
+        _ => return "bad-case".into(),
+    };
     let Some(ops_s) = p.str("ops") else { return "bad-case".into() };
     let ops: Vec<&str> = ops_s.split('.').filter(|o| !o.is_empty()).collect();
     if !(1..=8).contains(&n) || sh > 8 || udelay > 500 || ops.len() > 200 {
@@ -270,8 +319,20 @@ pub fn run(words: &[&str], ctx: &mut Ctx) -> String {
     // nodes that alone do not answer USE
     let held_nodes: std::sync::Arc<std::sync::Mutex<Vec<usize>>> = Default::default();
     let held_h = std::sync::Arc::clone(&held_nodes);
-    let handler = with_std_prepare(move |r: &Req| match &r.parsed {
-        Parsed::Query { text, .. } if parse_use(text).is_some() => {
+    const EXISTING: [&str; 3] = ["ka", "kb", "Ka"];
+    // the USE statements a prepared EXECUTE may stand for
+    let prepared_use: Vec<(Vec<u8>, String)> = EXISTING
+        .iter()
+        .flat_map(|k| [format!("USE {}", k), format!("USE \"{}\"", k)])
+        .map(|t| (stmt_id(&t), t))
+        .collect();
+    let handler = with_std_prepare(move |r: &Req| {
+        let use_text: Option<String> = match &r.parsed {
+            Parsed::Query { text, .. } if parse_use(text).is_some() => Some(text.clone()),
+            Parsed::Execute { id, .. } => prepared_use.iter().find(|(i, _)| i == id).map(|(_, t)| t.clone()),
+            _ => None,
+        };
+        if let Some(text) = use_text {
             // the keyspace a server selects: a quoted name as it is, an unquoted one lower-cased
             let raw = text.trim()[4..].trim().trim_end_matches(';').trim().to_owned();
             let k = if raw.starts_with('"') { raw.trim_matches('"').to_owned() } else { raw.to_ascii_lowercase() };
@@ -279,7 +340,7 @@ pub fn run(words: &[&str], ctx: &mut Ctx) -> String {
             if mute || held_h.lock().unwrap().contains(&r.node) {
                 return vec![];
             }
-            if reject {
+            if reject || !EXISTING.contains(&k.as_str()) {
                 return vec![act_error(0x2200, "Keyspace does not exist", &[])];
             }
             let mut acts = Vec::new();
@@ -288,22 +349,45 @@ pub fn run(words: &[&str], ctx: &mut Ctx) -> String {
             }
             acts.push(Act::Respond(RESP_RESULT, body_set_keyspace(&k)));
             acts.push(Act::AckKeyspace(k));
-            acts
+            return acts;
         }
-        Parsed::Query { .. } => vec![Act::Respond(RESP_RESULT, rows_body(&row_specs(), true, None, &[]))],
-        _ => vec![act_void()],
+        match &r.parsed {
+            Parsed::Query { .. } | Parsed::Execute { .. } => vec![Act::Respond(RESP_RESULT, rows_body(&row_specs(), true, None, &[]))],
+            _ => vec![act_void()],
+        }
     });
     let rt = runtime(1);
     rt.block_on(async {
         let cluster = MockCluster::start(topo, handler).await;
         cluster.set_auto_use(false);
-        let session = match connect(&cluster, |b| if ct > 0 { b.connection_timeout(Duration::from_millis(ct)) } else { b }).await {
-            Ok(s) => s,
-            Err(skip) => return skip,
+        let customise = |b: scylla::client::session_builder::SessionBuilder| {
+            let b = if ct > 0 { b.connection_timeout(Duration::from_millis(ct)) } else { b };
+            match init {
+                Some((name, flag)) => b.use_keyspace(name, flag),
+                None => b,
+            }
+        };
+        let session = match connect(&cluster, customise).await {
+            Ok(s) => {
+                if let Some((name, flag)) = init
+                    && !server_keyspace(name, flag).is_some_and(|k| EXISTING.contains(&k.as_str()))
+                {
+                    ctx.fail(format!("e2e keyspace: the session was built with use_keyspace({:?}, {}) although that keyspace does not exist (the node answered Invalid)", name, flag));
+                }
+                s
+            }
+            Err(skip) => {
+                if init.is_some_and(|(name, flag)| !server_keyspace(name, flag).is_some_and(|k| EXISTING.contains(&k.as_str()))) && skip.contains("session-build-failed") {
+                    return "keyspace build-failed-as-it-must".to_owned();
+                }
+                ctx.fail(format!("e2e keyspace: the session could not be set up ({})", skip));
+                return skip;
+            }
         };
         let mut submitted: Vec<Submitted> = Vec::new();
         let mut results: Vec<bool> = Vec::new();
-        let mut confirmed: Option<String> = None;
+        // a session built with a keyspace: every request from the start must run in it
+        let mut confirmed: Option<String> = init.and_then(|(name, flag)| server_keyspace(name, flag));
         let mut uses_ok = 0;
         let mut uses_err = 0;
         let mut rng = Rng::new(seed ^ 0x6b73);
@@ -364,18 +448,39 @@ pub fn run(words: &[&str], ctx: &mut Ctx) -> String {
                         }
                     }
                 }
-                ("ya" | "yb", None) => {
-                    // session.rs handle_set_keyspace_response: the follow-up use_keyspace is awaited inside the query
-                    let k = if head == "ya" { "ka" } else { "kb" };
-                    match session.query_unpaged(format!("USE {}", k), ()).await {
-                        Ok(_) => {
-                            confirmed = Some(k.to_owned());
-                            uses_ok += 1;
-                        }
-                        Err(_) => {
-                            confirmed = None;
-                            uses_err += 1;
-                        }
+                (h, None) if h.len() >= 2 && h.len() <= 3 && "yzipj".contains(&h[..1]) && "abA".contains(&h[1..2]) && (h.len() == 2 || &h[2..] == "q") => {
+                    // session.rs run_request / pager.rs new_from_first_page: the follow-up use_keyspace(<returned name>, true)
+                    // is awaited inside the call
+                    let name = match &h[1..2] {
+                        "a" => "ka",
+                        "b" => "kb",
+                        _ => "Ka",
+                    };
+                    let quoted = h.len() == 3;
+                    let stmt = if quoted { format!("USE \"{}\"", name) } else { format!("USE {}", name) };
+                    // what a server resolves the statement to
+                    let target = if quoted { name.to_owned() } else { name.to_ascii_lowercase() };
+                    let ok = match &h[..1] {
+                        "y" => session.query_unpaged(stmt.clone(), ()).await.is_ok(),
+                        "z" => session.query_single_page(stmt.clone(), (), scylla::response::PagingState::start()).await.is_ok(),
+                        "i" => session.query_iter(stmt.clone(), ()).await.is_ok(),
+                        m => match session.prepare(stmt.clone()).await {
+                            Ok(prepared) => {
+                                if m == "p" {
+                                    session.execute_unpaged(&prepared, ()).await.is_ok()
+                                } else {
+                                    session.execute_iter(prepared, ()).await.is_ok()
+                                }
+                            }
+                            Err(_) => false,
+                        },
+                    };
+                    if ok {
+                        confirmed = Some(target);
+                        uses_ok += 1;
+                    } else {
+                        confirmed = None;
+                        uses_err += 1;
                     }
                 }
                 ("da" | "db" | "dA", Some(k)) if k <= 64 => {
